@@ -1,5 +1,7 @@
 import PwVerif.Model.Framing
 import PwVerif.Model.Registry
+import PwVerif.Model.Frames
+import PwVerif.Model.Mro
 /-!
 Line-protocol driver: `lake env lean --run PwVerif/Driver.lean < cases.txt`.
 One case per input line, one canonical observation per output line. Used by the
@@ -84,10 +86,121 @@ def c19 (args : List String) : String :=
         | _ => go s' rest acc
     "|".intercalate (go {} ops [])
 
+/-! ## frames: `frames <graph> <patches>`
+graph  ::= `a` | `r` | `p(` graph,* `)` | `o<id>(` <key>`:`graph,* `)`
+patches::= `{` <key>`:`(`v<n>` | patches),* `}`
+output : `ok <id>:<k=v<n>|k=d|k=o<id>,...>;...` (setstate order) or `err <kind>` -/
+namespace FramesIO
+open PwVerif.Frames
+
+instance : Inhabited Node := ⟨.atom⟩
+abbrev P := StateM (List Char)
+def peek : P (Option Char) := do return (← get).head?
+def adv : P Unit := modify List.tail
+partial def nat : P Nat := do
+  let rec go (acc : Nat) : P Nat := do
+    match (← peek) with
+    | some c => if c.isDigit then adv *> go (acc * 10 + (c.toNat - '0'.toNat)) else return acc
+    | none => return acc
+  go 0
+
+mutual
+partial def node : P Node := do
+  match (← peek) with
+  | some 'p' => adv; adv; let xs ← nodes []; return .plain xs
+  | some 'o' => adv; let i ← nat; adv; let fs ← fields []; return .opt i fs
+  | some 'r' => adv; return .ref
+  | _ => adv; return .atom
+partial def nodes (acc : List Node) : P (List Node) := do
+  match (← peek) with
+  | some ')' => adv; return acc.reverse
+  | some ',' => adv; nodes acc
+  | none => return acc.reverse
+  | _ => let n ← node; nodes (n :: acc)
+partial def fields (acc : List (Nat × Node)) : P (List (Nat × Node)) := do
+  match (← peek) with
+  | some ')' => adv; return acc.reverse
+  | some ',' => adv; fields acc
+  | none => return acc.reverse
+  | _ => let k ← nat; adv; let n ← node; fields ((k, n) :: acc)
+end
+
+partial def patches (acc : Patches) : P Patches := do
+  match (← peek) with
+  | some '{' => adv; patches acc
+  | some '}' => adv; return acc.reverse
+  | some ',' => adv; patches acc
+  | none => return acc.reverse
+  | _ =>
+    let k ← nat; adv
+    match (← peek) with
+    | some 'v' => adv; let v ← nat; patches ((k, .val v) :: acc)
+    | _ => let sub ← patches []; patches ((k, .dict sub) :: acc)
+
+def showPatch : Patch → String
+  | .val v => "v" ++ toString v
+  | .dict _ => "d"
+  | .obj i => "o" ++ toString i
+
+def insertKV (x : Nat × String) : List (Nat × String) → List (Nat × String)
+  | [] => [x]
+  | y :: ys => if x.1 ≤ y.1 then x :: y :: ys else y :: insertKV x ys
+
+def showDelivered (d : List (Nat × Patches)) : String :=
+  ";".intercalate (d.map fun (i, ps) =>
+    toString i ++ ":" ++ ",".intercalate (((ps.map fun (k, p) => (k, showPatch p)).foldr insertKV []).map
+      fun (k, v) => toString k ++ "=" ++ v))
+
+def run (args : List String) : String :=
+  match args with
+  | [g, p] =>
+    let (gn, _) := node.run g.toList
+    let (ps, _) := (patches []).run p.toList
+    match load ps gn with
+    | .ok s => "ok " ++ showDelivered s.delivered
+    | .error .assertChildRestored => "err assert-child-restored"
+    | .error .assertParentName => "err assert-parent-name"
+    | .error .assertExit => "err assert-exit"
+    | .error .indexError => "err index"
+  | _ => "bad-op"
+end FramesIO
+
+/-! ## c13mro: `c13mro <tok>...` tok = `<0|1><n|r|k|p>` (definesReduce, getstate kind), MRO order
+      c13choice: `c13choice <remote> <builtin> <inCopyreg> <registered> <optIn>` (0/1 each) -/
+open PwVerif.Mro in
+def c13mro (args : List String) : String :=
+  let parse (t : String) : Option ClassInfo :=
+    match t.toList with
+    | [d, g] =>
+      let gs := match g with | 'r' => some GS.remote | 'k' => some GS.kwargs | 'p' => some GS.plain | 'n' => some GS.none | _ => none
+      gs.map fun g => ⟨d == '1', g⟩
+    | _ => none
+  match args.mapM parse with
+  | none => "bad-op"
+  | some mro => match checkType mro with
+    | .ok true => "ok1"
+    | .ok false => "ok0"
+    | .warning => "warn"
+
+open PwVerif.Mro in
+def c13choice (args : List String) : String :=
+  match args.map (· == "1") with
+  | [r, b, c, g, o] =>
+    match remoteChoice r ⟨b, c, g, o⟩ with
+    | .builtinSave => "std"
+    | .copyregReducer => "std"
+    | .reduceEx => "std"
+    | .remoteReduce true => "remote1"
+    | .remoteReduce false => "remote0"
+  | _ => "bad-op"
+
 def step (line : String) : String :=
   match (line.trimAscii.toString.splitOn " ").filter (· ≠ "") with
   | "c10" :: args => c10 args
   | "c19" :: args => c19 args
+  | "frames" :: args => FramesIO.run args
+  | "c13mro" :: args => c13mro args
+  | "c13choice" :: args => c13choice args
   | _ => "bad-op"
 
 partial def loop (h : IO.FS.Stream) : IO Unit := do
